@@ -8,7 +8,8 @@ from .vtypes import parse_type
 
 class Contract:
     def __init__(self, qual, types=None, returns=None, requires=(), ensures=(), modifies=(), loops=None,
-                 inline=False, props=(), note="", pure=False, bounded=None, may_raise=False, fixed=None, result_is=None):
+                 inline=False, props=(), note="", pure=False, bounded=None, may_raise=False, fixed=None, result_is=None, bounded_requires=()):
+        self.bounded_requires = list(bounded_requires)
         self.result_is = result_is
         self.fixed = dict(fixed or {})
         self.qual = qual
